@@ -335,6 +335,15 @@ func runC10Enumeration(c *Ctx) {
 									if strings.Count(e2.Val.String(), "loopval:")+strings.Count(e2.Val.String(), "iter:") < 2 {
 										bad = append(bad, "a product element is not the concatenation of one selection of each enumeration: "+e2.Val.String())
 									}
+									// ... built on a slice of its own: appending to a slice that was made outside
+									// this iteration (with spare capacity) makes all elements share one array
+									base := e2.Val
+									for base.Op == "append" && len(base.Args) >= 1 {
+										base = base.Args[0]
+									}
+									if !(isEmptyVal(base) || base.Op == "list" || base.Op == "makeslice") {
+										bad = append(bad, "a product element is appended onto "+base.String()+", which other elements are appended onto too")
+									}
 								}
 							}
 							if r.End != "continue" || st != 1 {
